@@ -150,14 +150,14 @@ def run_oracle(ck, n_int, n_named):
         nb, c = rng.choice([(1, 1), (2, 1), (1, 2)])
         if it % 2 == 0:
             x = gen.int_tensor(rng, (nb, c, gen.pick_len(rng, L, 30)))
-            oracle_fwd(ck, 1, m, J, (h0, h1), x)
+            rt.guard(ck, oracle_fwd, ck, 1, m, J, (h0, h1), x)
         else:
             L2 = 2 * rng.randint(1, 4)
             x = gen.int_tensor(rng, (nb, c, gen.pick_len(rng, L, 18), gen.pick_len(rng, L2, 18)))
             if rng.random() < 0.5:
-                oracle_fwd(ck, 2, m, J, (h0, h1, gen.int_filter(rng, L2), gen.int_filter(rng, L2)), x)
+                rt.guard(ck, oracle_fwd, ck, 2, m, J, (h0, h1, gen.int_filter(rng, L2), gen.int_filter(rng, L2)), x)
             else:
-                oracle_fwd(ck, 2, m, J, (h0, h1), x)
+                rt.guard(ck, oracle_fwd, ck, 2, m, J, (h0, h1), x)
     names = named_wavelets(rng, n_named)
     for name in names:
         w = pywt.Wavelet(name)
@@ -167,11 +167,11 @@ def run_oracle(ck, n_int, n_named):
         if rng.random() < 0.5:
             n = rng.choice([L + rng.randint(0, 9), 2 * L + 1, rng.randint(2, 40)])
             x = gen.float_tensor(ck.nprng, (1, 2, max(2, n)), dyn)
-            oracle_fwd(ck, 1, m, J, (np.array(w.dec_lo), np.array(w.dec_hi)), x, tol=1e-9, named=name)
+            rt.guard(ck, oracle_fwd, ck, 1, m, J, (np.array(w.dec_lo), np.array(w.dec_hi)), x, tol=1e-9, named=name)
         else:
             H = max(2, rng.choice([L + rng.randint(0, 5), rng.randint(2, 24)])); W = max(2, rng.randint(2, 24))
             x = gen.float_tensor(ck.nprng, (1, 1, H, W), dyn)
-            oracle_fwd(ck, 2, m, J, (np.array(w.dec_lo), np.array(w.dec_hi)), x, tol=1e-9, named=name)
+            rt.guard(ck, oracle_fwd, ck, 2, m, J, (np.array(w.dec_lo), np.array(w.dec_hi)), x, tol=1e-9, named=name)
 
 
 def search_neighbourhood(ck, hints):
@@ -183,8 +183,8 @@ def search_neighbourhood(ck, hints):
             for N_ in range(max(2, N - 4), N + 5):
                 for J in (1, 2):
                     h0 = gen.int_filter(rng, L_); h1 = gen.int_filter(rng, L_)
-                    oracle_fwd(ck, 1, m, J, (h0, h1), gen.int_tensor(rng, (1, 1, N_)))
-                    oracle_fwd(ck, 2, m, J, (h0, h1), gen.int_tensor(rng, (1, 1, N_, max(2, N_ - 1))))
+                    rt.guard(ck, oracle_fwd, ck, 1, m, J, (h0, h1), gen.int_tensor(rng, (1, 1, N_)))
+                    rt.guard(ck, oracle_fwd, ck, 2, m, J, (h0, h1), gen.int_tensor(rng, (1, 1, N_, max(2, N_ - 1))))
                     tried += 2
     ck.notes.append('failing-input search around %d hint(s): %d extra oracle cases' % (len(hints), tried))
 
